@@ -393,7 +393,7 @@ func Run(c *core.Ctx) {
 			n := 5 + rng.Intn(25)
 			var subs []Sub
 			for k := 0; k < n; k++ {
-				g := []string{"g1", "g1", "g2", "g3", "par", "g4", "g4", "g5", "g5", "g6", "g6"}[rng.Intn(11)]
+				g := []string{"g1", "g1", "g2", "g3", "par", "g4", "g4", "g5", "g5", "g6", "g6", "g7", "g7", "g8", "g8"}[rng.Intn(15)]
 				kind := subKindsFree[rng.Intn(len(subKindsFree))]
 				if g == "par" && kind == "withgroup" {
 					kind = "withres"
@@ -472,7 +472,7 @@ func Run(c *core.Ctx) {
 		if i%2 == 1 {
 			prog.Workers = 2
 		}
-		hot := []string{"g1", "g2", "g4", "g6"}[rng.Intn(4)]
+		hot := []string{"g1", "g2", "g4", "g6", "g7", "g8"}[rng.Intn(6)]
 		mk := func(n int, groups []string, kinds []string) []Sub {
 			var subs []Sub
 			for k := 0; k < n; k++ {
